@@ -184,10 +184,15 @@ func c09Specs(tier string) []*seq.Spec {
 	mk := func(cache int64, keys [][]byte, bounds [][]byte, maxc, maxv int) *msCfg {
 		return &msCfg{nStores: 1, keys: keys, vals: [][]byte{[]byte("a"), []byte("b")}, bounds: bounds, maxCommits: maxc, iavlCache: cache, viewKinds: []string{"lazy", "cms"}, maxViews: maxv, final: c09Final}
 	}
+	// "direct": block writes go to the live stores of the root multistore, the way this application's deliver
+	// state writes (a view opened in the middle of a block must still show the committed height)
+	direct := func(c *msCfg) *msCfg { c.direct = true; return c }
 	if tier == "thorough" {
-		return []*seq.Spec{msSpec("historical-nodecache1", mk(1, msKeys3, msBounds3, 3, 2), 7), msSpec("historical-default", mk(0, msKeys3[:2], msBounds3[:3], 4, 3), 8)}
+		return []*seq.Spec{msSpec("historical-nodecache1", mk(1, msKeys3, msBounds3, 3, 2), 7), msSpec("historical-default", mk(0, msKeys3[:2], msBounds3[:3], 4, 3), 8),
+			msSpec("historical-direct-writes", direct(mk(0, msKeys3[:2], msBounds3[:3], 3, 2)), 7)}
 	}
-	return []*seq.Spec{msSpec("historical-nodecache1", mk(1, msKeys3[:2], msBounds3[:3], 3, 2), 7), msSpec("historical-default", mk(0, msKeys3[:2], msBounds3[:3], 3, 2), 7)}
+	return []*seq.Spec{msSpec("historical-nodecache1", mk(1, msKeys3[:2], msBounds3[:3], 3, 2), 7), msSpec("historical-default", mk(0, msKeys3[:2], msBounds3[:3], 3, 2), 7),
+		msSpec("historical-direct-writes", direct(mk(0, msKeys3[:2], msBounds3[:3], 3, 2)), 7)}
 }
 
 func init() {
@@ -208,7 +213,7 @@ func init() {
 	})
 	register(&Check{ID: "C09", QuickBud: 100 * time.Second, ThorBud: 30 * time.Minute,
 		Run: func(c *ev.Ctx) {
-			c.Rule = "BFS over all sequences of set/delete/commit/open-historical-view (LoadLazyVersion as Context.PrevCtx and ABCI queries use it; CacheMultiStoreWithVersion) on a real rootmulti.Store (IAVL node cache size 1 and default); at every state every open view (however old, whatever was written or committed since, whichever other views were opened) is read completely (Get/Has/all ranges both directions, direct and cache-wrapped) and compared with the map committed at its height; store queries at every retained height likewise. Non-trivial = history with a commit"
+			c.Rule = "BFS over all sequences of set/delete/commit/open-historical-view (LoadLazyVersion as Context.PrevCtx and ABCI queries use it; CacheMultiStoreWithVersion) on a real rootmulti.Store (IAVL node cache size 1 and default; block writes through a cache multistore and, in a third configuration, directly into the live stores as this application's deliver state does); at every state every open view (however old, whatever was written or committed since, whichever other views were opened) is read completely (Get/Has/all ranges both directions, direct and cache-wrapped) and compared with the map committed at its height; store queries at every retained height likewise. Non-trivial = history with a commit"
 			msRunSpecs(c, c09Specs(c.Tier))
 		},
 		Replay: msReplay(c09Specs),
